@@ -182,6 +182,15 @@ class Check:
         self.workdir = os.path.join(WORK, "%s-%s-%d-%d" % (prop, tier, seed, os.getpid()))
         shutil.rmtree(self.workdir, ignore_errors=True)
         os.makedirs(self.workdir)
+        # work directories of failed runs are kept for diagnosis, but not for ever (disk space)
+        try:
+            now = time.time()
+            for e in os.listdir(WORK):
+                pth = os.path.join(WORK, e)
+                if pth != self.workdir and now - os.path.getmtime(pth) > 2 * 3600:
+                    shutil.rmtree(pth, ignore_errors=True)
+        except OSError:
+            pass
 
     # -- recording
     def violation(self, key, detail, files=(), replay_args=None):
